@@ -98,26 +98,12 @@ Theorem clone_subscript : forall op st src x y sub,
 Proof. exact SymbolsProofs.clone_subscript. Qed.
 Print Assumptions clone_subscript.
 
-(* the property's clause "when no assumptions are passed, [the clone keeps] its assumptions":
-   provable for clone_as_symbol and clone_as_indexed ... *)
-Theorem clone_assumptions_partial : forall op st src x y,
-  clone_src op = Some src -> (forall s d l sb a, op <> CloneFunction s d l sb a) ->
-  get_src st src = Some x -> snd (exec op st) = Some y ->
+(* the property's clause "when no assumptions are passed, [the clone keeps] its assumptions", all three helpers *)
+Theorem clone_assumptions : forall op st src x y,
+  clone_src op = Some src -> get_src st src = Some x -> snd (exec op st) = Some y ->
   clone_assum op = [] -> oassum y = oassum x.
-Proof. exact SymbolsProofs.clone_assumptions_partial. Qed.
-Print Assumptions clone_assumptions_partial.
-
-(* ... and refuted by the faithful model for clone_as_function (witness replayed on the real code by the driver) *)
-Theorem clone_assumptions_refuted :
-  exists op st src x y,
-    clone_src op = Some src /\ get_src st src = Some x /\ snd (exec op st) = Some y /\
-    clone_assum op = [] /\ oassum x = [("positive", true)] /\ oassum y = [].
-Proof. exact SymbolsProofs.clone_assumptions_refuted. Qed.
-Print Assumptions clone_assumptions_refuted.
-
-Theorem clone_assumptions_full_statement_false : ~ clone_assumptions_full_statement.
-Proof. exact SymbolsProofs.clone_assumptions_full_statement_false. Qed.
-Print Assumptions clone_assumptions_full_statement_false.
+Proof. exact SymbolsProofs.clone_assumptions. Qed.
+Print Assumptions clone_assumptions.
 
 Theorem clone_assumptions_passed : forall op st src x y,
   clone_src op = Some src -> get_src st src = Some x -> snd (exec op st) = Some y ->
